@@ -34,3 +34,24 @@ func CanonLate(axis vec, h float64) (vec, vec) {
 	axis = axis.Normalize()
 	return tip, axis
 }
+
+type drop struct {
+	Center    model3d.Coord3D
+	Direction model3d.Coord3D
+	Radius    float64
+}
+
+func (d *drop) Contains(c model3d.Coord3D) bool {
+	return c.Sub(d.Center).Dot(d.Direction.Normalize()) < d.Radius
+}
+
+// want:FIELDCANON the tip is built from the raw direction.
+func (d *drop) Max() model3d.Coord3D {
+	dir := d.Direction
+	return d.Center.Add(dir.Scale(d.Radius))
+}
+
+// clean:FIELDCANON
+func (d *drop) Min() model3d.Coord3D {
+	return d.Center.Sub(d.Direction.Normalize().Scale(d.Radius))
+}
